@@ -136,8 +136,8 @@ class PlanJoinTablesQuery:
         # try to use default namespace
         integration = self.planner.default_namespace
         if len(table.parts) > 0:
-            if table.parts[0] in self.planner.databases:
-                integration = table.parts.pop(0)
+            if table.parts[0].lower() in self.planner.databases:
+                integration = table.parts.pop(0).lower()
             else:
                 integration = self.planner.default_namespace
 
